@@ -270,3 +270,15 @@ Definition run_case2 (items : list (graph * list (N * Z) * list (N * Z))) (other
 (* whole-family batches: equality pattern of the signatures, per back-end *)
 Definition run_batch (gs : list graph) : tok :=
   L [tlist tnat (pattern [] (map ser_generic gs)); tlist tnat (pattern [] (map ser_nauty gs))].
+
+(* SynRule.__eq__ exercised on rules assembled from fragment graphs (rc, left, right): (g,g,g) against
+   (h,g,g), (g,h,g), (g,g,h) - each verdict isolates one of the three compared signatures *)
+Definition run_rule_vo (g : graph) (hs : list graph) : tok :=
+  tlist (fun h => L (flat_map (fun ser : graph -> str =>
+                                 [tbool (synrule_eqb ser (g, g, g) (h, g, g)); tbool (synrule_eqb ser (g, g, g) (g, h, g));
+                                  tbool (synrule_eqb ser (g, g, g) (g, g, h))]) [ser_generic; ser_nauty])) hs.
+Definition run_case3 (items : list (graph * list (N * Z) * list (N * Z))) (others rule_hs : list graph) : tok :=
+  match items with
+  | [] => L [run_case2 items others; L []]
+  | (g, _, _) :: _ => L [run_case2 items others; run_rule_vo g rule_hs]
+  end.
